@@ -2,7 +2,7 @@
 
 Layers (FRAMEWORK.md): Spec = the executable Lean definitions `Abverif.Auth.*` over the Lean reference
 SHA-1/SHA-256/HMAC/PBKDF2/Base64/Base32 (`Abverif/Model/Crypto`, kernel-evaluated on the RFC vectors in
-`Model/Crypto/Vectors.lean`), run through the compiled driver (`auth.*` ops). A second, independent reference is
+`Model/Crypto/Vectors/*.lean`), run through the compiled driver (`auth.*` ops). A second, independent reference is
 Python's hashlib/hmac/base64 in this (stdlib-only) process. Implementation = the real functions of
 autobahn/wamp/auth.py, wamp/cryptosign.py and util.xor, run by harness/workers/c19_worker.py, which also plays the
 independent counterpart where third-party primitives are involved (OpenSSL Ed25519 verifier/signer against the
@@ -39,7 +39,8 @@ from vlib import core
 
 PROP = "C19"
 PROOF_MODULES = ["Abverif.Proofs.C19", "Abverif.Proofs.Lemmas.C19Prims", "Abverif.Proofs.Lemmas.C19Bytes",
-                 "Abverif.Model.Crypto.Vectors"]
+                 "Abverif.Model.Crypto.Vectors.Hash", "Abverif.Model.Crypto.Vectors.Mac", "Abverif.Model.Crypto.Vectors.Kdf",
+                 "Abverif.Model.Crypto.Vectors.Hotp", "Abverif.Model.Crypto.Vectors.Totp", "Abverif.Model.Crypto.Vectors.Codec"]
 TRANSLATORS = []
 TRUSTED = [
     "Lean 4.33 kernel; axioms of every theorem audited to be within {propext, Classical.choice, Quot.sound}",
@@ -193,7 +194,7 @@ def gen_cases(ctx):
                     k += 1
                     c = {"op": "derive", "secret": th(t), "salt": th(salt), "iterations": it, "keylen": kl,
                          "as_str": k % 2 == 0}
-                    if k % 37 == 0 and len(t) <= 65 and it <= 2:
+                    if k % 37 == 0 and len(t) <= 65 and it <= 2 and kl >= 16:   # a 1-octet key collides by chance
                         c["flips"] = True
                     cases.append(c)
     cases.append({"op": "derive", "secret": th("secret"), "salt": th("salt"), "iterations": 0, "keylen": 32, "as_str": True})
@@ -901,6 +902,10 @@ def run(ctx):
             results[i] = r
         res.count("worker_cases:" + o["fw"], len(part))
     libs = outs[0]["libs"]
+    for o in outs:
+        if Path(o["libs"]["autobahn_path"]).resolve() != core.SRC.resolve():
+            raise RuntimeError(f"worker imported autobahn from {o['libs']['autobahn_path']}, not from {core.SRC}")
+    libs.pop("autobahn_path", None)
     res.notes.append("libraries: " + json.dumps(libs, sort_keys=True))
     res.notes.append("independent Argon2id: " + ("cryptography/OpenSSL (different implementation from argon2-cffi)" if libs.get("independent_argon2id")
                                                   else "NOT AVAILABLE (argon2 cases not judged against an independent implementation)"))
